@@ -323,6 +323,18 @@ func ops() []opDef {
 		opDef{"remove", "fs", true, false, func(_ *env, fs filesystem.FileSystem) error { return fs.Remove("A.TXT") }},
 		opDef{"remove-dirfile", "fs", true, false, func(_ *env, fs filesystem.FileSystem) error { return fs.Remove("DIR/B.BIN") }},
 		opDef{"setlabel", "fs", true, false, func(_ *env, fs filesystem.FileSystem) error { return fs.SetLabel("NEWLABEL") }},
+		// mutators whose argument is the value already there, and an immediate retry of a refused call: still mutating
+		// calls, still to be refused (a shortcut that returns nil for "nothing to do" answers before the guard)
+		opDef{"setlabel-current", "fs", true, false, func(_ *env, fs filesystem.FileSystem) error { return fs.SetLabel(fs.Label()) }},
+		opDef{"setlabel-retry", "fs", true, false, func(_ *env, fs filesystem.FileSystem) error {
+			_ = fs.SetLabel("RETRYLBL")
+			return fs.SetLabel("RETRYLBL")
+		}},
+		opDef{"rename-same", "fs", true, false, func(_ *env, fs filesystem.FileSystem) error { return fs.Rename("A.TXT", "A.TXT") }},
+		opDef{"chmod-retry", "fs", true, false, func(_ *env, fs filesystem.FileSystem) error {
+			_ = fs.Chmod("A.TXT", 0o640)
+			return fs.Chmod("A.TXT", 0o640)
+		}},
 		opDef{"chmod", "fs", true, false, func(_ *env, fs filesystem.FileSystem) error { return fs.Chmod("A.TXT", 0o600) }},
 		opDef{"chown", "fs", true, false, func(_ *env, fs filesystem.FileSystem) error { return fs.Chown("A.TXT", 1, 1) }},
 		opDef{"chtimes", "fs", true, false, func(_ *env, fs filesystem.FileSystem) error { return fs.Chtimes("A.TXT", t, t, t) }},
@@ -664,7 +676,7 @@ func Run(c *hx.Ctx) {
 			for _, b := range short {
 				id := fmt.Sprintf("s2/%s/%s+%s", im.name, a, b)
 				n++
-				if !c.Want(id) || (!c.Thorough() && n%3 != int(c.Seed%3)) {
+				if !c.Want(id) || (!c.Thorough() && a != b && n%3 != int(c.Seed%3)) {
 					continue
 				}
 				sequence(c, id, im, "ro-backend", []string{a, b})
